@@ -27,8 +27,8 @@
   CREATED during the run (no accepted `AddRealm` named `A`, no on-demand creation of `A` from the
   template).  (3) is needed because the model's publication-id placeholders of a new realm start
   at `created * 1000000`, and `created` counts the realms of the whole router: see
-  `create_modulo_pubbase` (a realm created in two routers differs in exactly that base) and
-  `pubbase_shared_witness`.
+  `create_modulo_pubbase` (a realm created in two routers differs in exactly that base and in the
+  clock it starts with: the router's, time being global) and `pubbase_shared_witness`.
 -/
 import Nexus.L2.Proofs.RouterFrame
 
@@ -448,10 +448,11 @@ theorem run_noninterference (A : String) : ∀ (ops₁ : List ROp) (rt₁ rt₂ 
 /-! ### creation of a realm: the publication-id base is shared router state -/
 
 /-- An accepted `AddRealm cfg` in two routers yields the same realm up to `pubCount`
-    (`created * 1000000`, `created` counting the realms of the whole router). -/
+    (`created * 1000000`, `created` counting the realms of the whole router) and the clock `now`
+    (the router's: time is global, a realm created later starts at the current time). -/
 theorem create_modulo_pubbase (rt : Router) (cfg : Config) (r : Realm) (hcr : Realm.create cfg = some r)
     (hacc : (rt.closed || rt.realms.any (fun p => p.1 == cfg.uri)) = false) :
-    (rt.step (.addRealm cfg)).2.realm? cfg.uri = some { r with pubCount := rt.created * 1000000 } := by
+    (rt.step (.addRealm cfg)).2.realm? cfg.uri = some { r with pubCount := rt.created * 1000000, now := rt.now } := by
   rw [step_add, hacc]
   simp only [Bool.false_eq_true, if_false, hcr]
   have : rt.realms.any (fun p => p.1 == cfg.uri) = false := by
@@ -471,19 +472,27 @@ theorem pubbase_shared (cfgA cfgB : Config) (rA rB : Realm) (hA : Realm.create c
     (runR {} [.addRealm cfgB, .addRealm cfgA]).2.realm? cfgA.uri = some { rA with pubCount := 1000000 } ∧
     (runR {} [.addRealm cfgA]).2.realm? cfgA.uri = some { rA with pubCount := 0 } := by
   have e1 : (({} : Router).step (.addRealm cfgB)).2 =
-      { realms := [(cfgB.uri, { rB with pubCount := 0 })], created := 1 } := by
+      { realms := [(cfgB.uri, { rB with pubCount := 0, now := 0 })], created := 1 } := by
     rw [step_add]
     simp only [hB]
+    rfl
+  -- both runs start at time 0 and no time passes: the created realm keeps the clock of `Realm.create`
+  have hnow : ∀ n : Nat, ({ rA with pubCount := n, now := 0 } : Realm) = { rA with pubCount := n } := by
+    intro n
+    have h0 := create_now hA
+    cases rA
+    simp only at h0
+    subst h0
     rfl
   refine ⟨?_, ?_⟩
   · show (((({} : Router).step (.addRealm cfgB)).2).step (.addRealm cfgA)).2.realm? cfgA.uri = _
     rw [e1]
-    have := create_modulo_pubbase { realms := [(cfgB.uri, { rB with pubCount := 0 })], created := 1 } cfgA rA hA
+    have := create_modulo_pubbase { realms := [(cfgB.uri, { rB with pubCount := 0, now := 0 })], created := 1 } cfgA rA hA
       (by simp [hne])
     rw [this]
-    show some { rA with pubCount := 1 * 1000000 } = _
-    rw [Nat.one_mul]
-  · exact create_modulo_pubbase {} cfgA rA hA rfl
+    show some { rA with pubCount := 1 * 1000000, now := 0 } = _
+    rw [Nat.one_mul, hnow]
+  · exact (create_modulo_pubbase {} cfgA rA hA rfl).trans (congrArg some (hnow _))
 
 /-! ### the part observed on behalf of `A` is the router's observation filtered to `A`'s sessions -/
 
